@@ -22,7 +22,8 @@ type World struct {
 	sfile     map[int]int
 	ro        map[int]bool
 	rmark     map[int]int
-	cfg       int // callback configuration bits for stores opened from now on
+	rewrite   string // set by an operation whose line must carry a value only the implementation knows (the priority Set drew)
+	cfg       int    // callback configuration bits for stores opened from now on
 	rc        *refCounter
 	churn     []*gkvlite.Store
 	dropped   int
@@ -52,6 +53,78 @@ func hx(b []byte) string {
 		return "-"
 	}
 	return "h" + hex.EncodeToString(b)
+}
+
+// baBox is a ByteAble (the fifth kind of argument toBa accepts).
+type baBox struct{ b []byte }
+
+func (x baBox) ToBa() []byte { return x.b }
+
+// anyArg parses the token of an "any supported type" argument: i:<int>  l:<int>,<int>,..  s:<hex>
+// b:<hex>|b:-  B:<hex>
+func anyArg(s string) (interface{}, bool) {
+	if len(s) < 2 || s[1] != ':' {
+		return nil, false
+	}
+	body := s[2:]
+	switch s[0] {
+	case 'i':
+		v, err := strconv.Atoi(body)
+		return v, err == nil
+	case 'l':
+		l := []int{}
+		if body != "" {
+			for _, f := range strings.Split(body, ",") {
+				v, err := strconv.Atoi(f)
+				if err != nil {
+					return nil, false
+				}
+				l = append(l, v)
+			}
+		}
+		return l, true
+	case 's':
+		b, err := hex.DecodeString(body)
+		return string(b), err == nil
+	case 'b':
+		if body == "-" {
+			return []byte(nil), true
+		}
+		b, err := hex.DecodeString(body)
+		if b == nil {
+			b = []byte{}
+		}
+		return b, err == nil
+	case 'B':
+		b, err := hex.DecodeString(body)
+		if b == nil {
+			b = []byte{}
+		}
+		return baBox{b}, err == nil
+	}
+	return nil, false
+}
+
+// anyBytes is what the package's toBa is expected to make of an argument (used only to read back
+// the priority a convenience setter chose).
+func anyBytes(x interface{}) []byte {
+	switch v := x.(type) {
+	case int:
+		return []byte(strconv.Itoa(v))
+	case []int:
+		f := make([]string, len(v))
+		for i, y := range v {
+			f[i] = strconv.Itoa(y)
+		}
+		return []byte(strings.Join(f, ","))
+	case string:
+		return []byte(v)
+	case []byte:
+		return v
+	case baBox:
+		return v.b
+	}
+	return nil
 }
 
 func unhx(s string) ([]byte, bool) {
@@ -479,6 +552,95 @@ func (w *World) exec(t []string) string {
 			w.rc.userItem(it)
 		}
 		return errClass(c.SetItem(it))
+	case "seta", "setr":
+		// the convenience setters draw the priority from math/rand's global source: seed it so that
+		// the next value is the one the operation line (and so the model) carries
+		n, _ := unhx(t[2])
+		_, c, e := w.coll(atoi(t[1]), n)
+		if e != "" {
+			return e
+		}
+		seed, _ := strconv.ParseInt(t[5], 10, 64)
+		rand.Seed(seed)
+		var kb []byte
+		var err error
+		if t[0] == "setr" {
+			k, _ := unhx(t[3])
+			v, _ := unhx(t[4])
+			kb, err = k, c.Set(k, v)
+		} else {
+			k, ok1 := anyArg(t[3])
+			v, ok2 := anyArg(t[4])
+			if !ok1 || !ok2 {
+				return "bad-op"
+			}
+			kb, err = anyBytes(k), c.SetAny(k, v)
+		}
+		if err == nil && len(kb) > 0 {
+			// which priority the call chose is not specified anywhere: read it back and put it
+			// into the operation line, so that the model builds the tree with that priority
+			if it, e := c.GetItem(kb, false); e == nil && it != nil && strconv.Itoa(int(it.Priority)) != t[6] {
+				t[6] = strconv.Itoa(int(it.Priority))
+				w.rewrite = strings.Join(t, " ")
+			}
+		}
+		return errClass(err)
+	case "geta":
+		n, _ := unhx(t[2])
+		_, c, e := w.coll(atoi(t[1]), n)
+		if e != "" {
+			return e
+		}
+		k, ok := anyArg(t[3])
+		if !ok {
+			return "bad-op"
+		}
+		v, err := c.GetAny(k)
+		if err != nil {
+			return errClass(err)
+		}
+		return hx(v)
+	case "exa":
+		n, _ := unhx(t[2])
+		_, c, e := w.coll(atoi(t[1]), n)
+		if e != "" {
+			return e
+		}
+		k, ok := anyArg(t[3])
+		if !ok {
+			return "bad-op"
+		}
+		return strconv.FormatBool(c.ExistAny(k))
+	case "dela":
+		n, _ := unhx(t[2])
+		_, c, e := w.coll(atoi(t[1]), n)
+		if e != "" {
+			return e
+		}
+		k, ok := anyArg(t[3])
+		if !ok {
+			return "bad-op"
+		}
+		d, err := c.DeleteAny(k)
+		if err != nil {
+			return errClass(err)
+		}
+		return strconv.FormatBool(d)
+	case "name":
+		n, _ := unhx(t[2])
+		_, c, e := w.coll(atoi(t[1]), n)
+		if e != "" {
+			return e
+		}
+		return hx([]byte(c.Name()))
+	case "fsize":
+		st := w.stores[atoi(t[1])]
+		if st == nil {
+			return "nostore"
+		}
+		m := map[string]uint64{}
+		st.Stats(m)
+		return strconv.FormatUint(m["fileSize"], 10)
 	case "del":
 		n, _ := unhx(t[2])
 		_, c, e := w.coll(atoi(t[1]), n)
@@ -523,6 +685,36 @@ func (w *World) exec(t []string) string {
 			st.ItemDecRef(c, i)
 		}
 		return o
+	case "icopy":
+		// GetItem(withValue) followed by Item.Copy(): the copy shows what the original shows
+		n, _ := unhx(t[2])
+		st, c, e := w.coll(atoi(t[1]), n)
+		if e != "" {
+			return e
+		}
+		k, _ := unhx(t[3])
+		i, err := c.GetItem(k, true)
+		if err != nil {
+			return errClass(err)
+		}
+		if i == nil {
+			return showItem(nil, true)
+		}
+		cp := i.Copy()
+		st.ItemDecRef(c, i)
+		return showItem(cp, true)
+	case "mjson":
+		// Collection.MarshalJSON(): the persisted location of the root node, zeros while unwritten
+		n, _ := unhx(t[2])
+		_, c, e := w.coll(atoi(t[1]), n)
+		if e != "" {
+			return e
+		}
+		b, err := c.MarshalJSON()
+		if err != nil {
+			return errClass(err)
+		}
+		return string(b)
 	case "exist":
 		n, _ := unhx(t[2])
 		_, c, e := w.coll(atoi(t[1]), n)
